@@ -231,12 +231,19 @@ func enumShapes(tier string, shapes []*tbin.Shape, yield func(*scen) bool) {
 				root = tbin.StructS(tbin.SF(1, s))
 			}
 			prog := jt.Plain(root)
-			for n := 0; n <= 3; n++ {
+			for n := 0; n <= 5; n++ {
 				if n > 1 && s.Depth() == 0 {
 					continue
 				}
+				if n > 3 && !tbin.HasStructInContainer(s) {
+					continue
+				}
 				g := &tbin.Gen{}
-				v := g.Build(root, n)
+				v := g.Build(root, min(n, 3))
+				if n > 3 {
+					// n = 4 / 5: three elements, the later ones lack the first / last field of their structs
+					tbin.DropInLater(v, n == 4)
+				}
 				type variant struct {
 					o  jt.DocOpt
 					sp jt.Spell
